@@ -17,9 +17,6 @@ def main():
         e = json.load(open(f))
         staged_props.add(os.path.basename(f)[:-5])
         staged += e.get('findings', [])
-        for x in e.get('fixed', []):
-            if x not in fixed and not any(x.split()[2:3] == y.split()[2:3] and x.split()[1] == y.split()[1] for y in fixed):
-                fixed.append(x)
     own = [x for x in k.get('findings', []) if x['property'] not in staged_props]
     seen, out = set(), []
     for x in own + staged:
